@@ -8,7 +8,9 @@ Parts (corpus cases of the two repaired defects are run first, through the same 
      the identification itself, two step sizes that must agree (oracle = property text).
   M  model chain in Qc on witness values (harness SVD / eig): Q1..Q3 (modulo changes of the state basis) and Fn_cov as
      returned by the functions; the model of the code's singular-vector sensitivity vs classical perturbation theory.
-  G  SSIcov(calc_unc=True).result.Fn_poles_cov = the function pipeline (hard criteria may only blank cells).
+  G  SSIcov(calc_unc=True) through SingleSetup (hard criteria loosened so nothing is masked): result.Fn_poles_cov identical to
+     SSI_fast + SSI_poles on build_hank's own H, T, and judged against the finite-difference oracle; includes the small edge of
+     the quantifier (l in {1,2}, br in {2,3}) with 2..30 factor columns, below / at / above the number of Hankel entries.
 """
 import glob
 import json
@@ -90,8 +92,10 @@ def fd_variances(H, T, br, ordmax, dt, Lam0, h):
     return tot
 
 
-def check_propagation(ctx, case, H, T, br, ordmax, dt, src):
-    """Part P on one input.  Returns the implementation's outputs (for part M) or None when the case is outside the guards."""
+def check_propagation(ctx, case, H, T, br, ordmax, dt, src, reported=None):
+    """Part P on one input.  Returns the implementation's outputs (for part M) or None when the case is outside the guards.
+    With `reported` (a variance table obtained elsewhere, e.g. result.Fn_poles_cov of the class) that table is judged against
+    the finite differences instead of the one SSI_poles returns here."""
     H = np.asarray(H, float)
     T = np.asarray(T, float).reshape(H.size, -1)
     try:
@@ -109,7 +113,8 @@ def check_propagation(ctx, case, H, T, br, ordmax, dt, src):
     ctx.hist("factor_columns", T.shape[1])
     ctx.hist("shape(rows,cols,br)", (H.shape[0], H.shape[1], br))
     ctx.hist("min_sv_gap_decade", int(math.floor(math.log10(max(gap, 1e-12)))))
-    Fc = out["Fn_cov"]
+    Fc = out["Fn_cov"] if reported is None else reported
+    fkey = "C17:prop:fn_cov" if reported is None else "C17:glue:fn_cov"
     if Fc is None or np.shape(Fc) != (ordmax, ordmax + 1):
         ctx.fail("oracle", "Fn_cov missing or of the wrong shape", case, key="C17:prop:shape")
         return None
@@ -119,6 +124,8 @@ def check_propagation(ctx, case, H, T, br, ordmax, dt, src):
         for j in range(n):
             v = [f[j, n] for f in fds]
             vc = Fc[j, n]
+            if reported is not None and not np.isfinite(vc):
+                continue  # a cell the class blanked
             # two step sizes must agree.  Of the two adjacent pairs the one that agrees better is used (truncation error falls,
             # rounding noise grows with a finer step); the finer value of that pair is the reference.
             best = None
@@ -141,7 +148,7 @@ def check_propagation(ctx, case, H, T, br, ordmax, dt, src):
                 ctx.fail("oracle", "Fn_cov differs from the sum of squared finite-difference directional derivatives "
                          "(order %d, pole %d: reported %.6g, finite differences %.6g / %.6g)" % (n, j, vc, va, vb),
                          dict(case, order=n, pole=j, reported=float(vc), fd=[float(va), float(vb)]),
-                         key="C17:prop:fn_cov" + ("-single" if T.shape[1] == 1 else ""))
+                         key=fkey + ("-single" if T.shape[1] == 1 else ""))
                 ctx.count(case, nontrivial=True)
                 return out
     ctx.count(case, nontrivial=judged > 0)
@@ -588,6 +595,8 @@ def run(ctx):
         "first order is formalised with dual numbers (defining equations assumed to hold to first order for the perturbed quantities); "
         "the EXISTENCE of differentiable singular-triple / eigen-pair branches (analytic perturbation theory) and the link between dual "
         "numbers and real derivatives of the identification map are not theorems: supported by the finite-difference oracle",
+        "class level: SSIcov always blanks poles with non-positive damping and every single-channel shape; to see the whole variance table "
+        "the harness also runs the class with pyoma2.functions.gen.applymask replaced by a pass-through inside the harness process",
         "Q1..Q3 are compared modulo changes of the state basis (theorem C17_gauge_invariant); Q4 and Xi_cov / Phi_cov are not constrained "
         "by the property and not compared",
     ]
@@ -645,6 +654,8 @@ def run(ctx):
             do_scale(case, out0, case.get("scale_ks", []))
         elif case["kind"] == "pipeline":
             check_pipeline(ctx, case, fexprs, fmeta, do_prop)
+        elif case["kind"] == "class":
+            check_class(ctx, case)
 
     lap("corpus")
     # ---- part F
@@ -692,36 +703,99 @@ def run(ctx):
     lap("glue")
 
 
-def glue(ctx):
+LOOSE_HC = dict(conj=False, xi_max=1e9, mpc_lim=-1.0, mpd_lim=1e9, cov_max=1e300)  # hard criteria that mask nothing
+
+
+class masks_off:
+    """Head-less observation aid (harness process only, nothing in /repo changes): the class ALWAYS applies its hard-criteria masks
+    (non-positive damping, and every single-channel shape, are blanked whatever the limits), so the variance table it stores can be
+    empty.  While this context is active gen.applymask passes its arrays through, so result.Fn_poles_cov is the unmasked table."""
+
+    def __enter__(self):
+        from pyoma2.functions import gen
+        self.gen, self.orig = gen, getattr(gen, "applymask", None)
+        if self.orig is not None:
+            gen.applymask = lambda list_arr, mask, len_phi: list(list_arr)
+        return self.orig is not None
+
+    def __exit__(self, *a):
+        if self.orig is not None:
+            self.gen.applymask = self.orig
+        return False
+
+
+def run_class(Y, refs, br, ordmax, nb, fs):
     from pyoma2.algorithms import SSIcov
     from pyoma2.setup import SingleSetup
+    ss = SingleSetup(Y.T.copy(), fs=fs)
+    alg = SSIcov(name="u", method="cov_mm", br=br, ordmax=ordmax, ref_ind=refs, calc_unc=True, nb=nb, hc=dict(LOOSE_HC))
+    ss.add_algorithms(alg)
+    ss.run_by_name("u")
+    return alg.result.Fn_poles_cov
+
+
+def check_class(ctx, case):
+    """SSIcov(calc_unc=True) run through SingleSetup.  result.Fn_poles_cov must be (i) identical to SSI_fast + SSI_poles called
+    directly on build_hank's own H and T, and (ii) the finite-difference propagation of that T (oracle).  Run twice: with the
+    class's masks as they are (cells it blanks are not compared) and with the masks switched off (whole table)."""
+    Y = np.array(case["Y"], float)
+    refs, br, ordmax, nb, fs = case["refs"], case["br"], case["ordmax"], case["nb"], case["fs"]
+    l, r = Y.shape[0], len(refs)
+    ctx.hist("class(l,r,br)", (l, r, br))
+    ctx.hist("class nb vs (br+1)^2*l*r", "above" if nb > (br + 1) ** 2 * l * r else ("equal" if nb == (br + 1) ** 2 * l * r else "below"))
+    ctx.count(case)
+    H, T = ssi.build_hank(Y, Y[refs, :], br, "cov_mm", calc_unc=True, nb=nb)
+    H, T = np.asarray(H), np.asarray(T)
+    exp = identify_unc(H, T, br, ordmax, 1.0 / fs)["Fn_cov"]
+    for unmasked in (False, True):
+        try:
+            if unmasked:
+                with masks_off() as ok:
+                    if not ok:
+                        ctx.note("gen.applymask not found: the class's masks could not be switched off, unmasked comparison skipped")
+                        return
+                    got = run_class(Y, refs, br, ordmax, nb, fs)
+            else:
+                got = run_class(Y, refs, br, ordmax, nb, fs)
+        except Exception as e:
+            ctx.fail("oracle", "SSIcov(calc_unc=True).run raised %s" % type(e).__name__, dict(case, masks_off=unmasked), key="C17:glue:raises")
+            return
+        if got is None or np.shape(got) != np.shape(exp):
+            ctx.fail("oracle", "SSIcov(calc_unc=True).result.Fn_poles_cov missing / wrong shape", case, key="C17:glue:shape")
+            return
+        got = np.asarray(got, float)
+        m = np.isfinite(got)
+        ctx.hist("class cells compared" + (" (masks off)" if unmasked else ""), int(m.sum()))
+        if unmasked and m.sum() < np.isfinite(exp).sum():
+            ctx.note("with gen.applymask passing through, result.Fn_poles_cov still has blank cells: only the others are compared")
+        if np.any(m & ~np.isfinite(exp)) or not np.allclose(got[m], exp[m], rtol=1e-9, atol=0):
+            ctx.fail("oracle", "SSIcov(calc_unc=True).result.Fn_poles_cov is not Fn_cov of build_hank -> SSI_fast -> SSI_poles on "
+                     "(data, reference rows, dt = 1/fs)%s" % (" [masks off]" if unmasked else ""), dict(case, masks_off=unmasked), key="C17:glue:value")
+        # (ii) the class's own table against finite differences of the identification along build_hank's factor columns
+        if m.any():
+            check_propagation(ctx, dict(case, masks_off=unmasked, note="H, T = build_hank(Y, Y[refs], br, cov_mm, calc_unc=True, nb); "
+                                        "reported = result.Fn_poles_cov of the class"),
+                              H, T, br, ordmax, 1.0 / fs, "class", reported=got)
+
+
+def glue(ctx):
     rng = ctx.np_rng
     for k in range(ctx.n(3, 12)):
         l = int(rng.integers(2, 4))
         refs = sorted(rng.choice(l, size=int(rng.integers(1, l + 1)), replace=False).tolist())
         br = int(rng.integers(2, 5))
         ordmax = int(min(4, br * l, (br + 1) * len(refs)))
-        nb = int(rng.integers(2, 9))
-        Y = gen_data(rng, l, 4, 500)
-        fs = 50.0
-        ss = SingleSetup(Y.T.copy(), fs=fs)
-        alg = SSIcov(name="u", method="cov_mm", br=br, ordmax=ordmax, ref_ind=refs, calc_unc=True, nb=nb,
-                     hc=dict(conj=False, xi_max=1e9, mpc_lim=-1.0, mpd_lim=1e9, cov_max=1e300))
-        ss.add_algorithms(alg)
-        case = dict(kind="class-glue", l=l, refs=refs, br=br, ordmax=ordmax, nb=nb, Y=Y.tolist(), fs=fs)
-        ctx.count(case)
-        try:
-            ss.run_by_name("u")
-            got = alg.result.Fn_poles_cov
-        except Exception as e:
-            ctx.fail("oracle", "SSIcov(calc_unc=True).run raised %s" % type(e).__name__, case, key="C17:glue:raises")
-            continue
-        H, T = ssi.build_hank(Y, Y[refs, :], br, "cov_mm", calc_unc=True, nb=nb)
-        exp = identify_unc(np.asarray(H), np.asarray(T), br, ordmax, 1.0 / fs)["Fn_cov"]
-        if got is None or np.shape(got) != np.shape(exp):
-            ctx.fail("oracle", "SSIcov(calc_unc=True).result.Fn_poles_cov missing / wrong shape", case, key="C17:glue:shape")
-            continue
-        m = np.isfinite(got)
-        if m.sum() == 0 or not np.allclose(got[m], exp[m], rtol=1e-9, atol=0):
-            ctx.fail("oracle", "SSIcov(calc_unc=True).result.Fn_poles_cov is not Fn_cov of build_hank -> SSI_fast -> SSI_poles on "
-                     "(data, reference rows, dt = 1/fs)", case, key="C17:glue:value")
+        check_class(ctx, dict(kind="class", refs=refs, br=br, ordmax=ordmax, nb=int(rng.integers(2, 9)), fs=50.0,
+                              Y=gen_data(rng, l, 4, 500).tolist()))
+    # the small edge of the quantifier with MANY factor columns: nb below, at and above the number of Hankel entries
+    configs = [(1, [0], 2), (1, [0], 3), (2, [0], 2), (2, [1], 2), (2, [1, 0], 2), (2, [0], 3), (2, [0, 1], 3)]
+    for k in range(ctx.n(14, 84)):
+        l, refs, br = configs[k % len(configs)]
+        d = (br + 1) ** 2 * l * len(refs)
+        if d < 30 and k % 2 == 0:
+            nb = d + 1 if k % 3 == 0 else int(rng.integers(d + 1, 31))
+        else:
+            nb = min(d, 30) if k % 5 == 0 else int(rng.integers(2, min(d, 30) + 1))
+        ordmax = int(min(4, br * l, (br + 1) * len(refs)))
+        Y = gen_data(rng, l, 2 if l == 1 else 4, int(rng.integers(700, 1500)))
+        check_class(ctx, dict(kind="class", refs=refs, br=br, ordmax=ordmax, nb=nb, fs=float(rng.choice([20.0, 50.0])), Y=Y.tolist()))
